@@ -13,12 +13,13 @@ import (
 func TestMain(m *testing.M) { pbt.RunMain(m) }
 
 var txProfile = txm.Profile{
-	Name:       "c12",
-	OpKinds:    []string{"begin", "set", "set", "set", "set", "del", "commit", "commit", "commit", "get", "maint", "reopen", "reopen", "reopen"},
-	MaintKinds: []string{"rotate", "rotate", "drain", "drain", "once", "rewrite"},
-	ValueSizes: []int{0, 1, 33, 100, 1000, 9000},
-	MaxOps:     70,
-	MaxKeys:    6,
+	Name:        "c12",
+	OpKinds:     []string{"begin", "set", "set", "set", "set", "del", "commit", "commit", "commit", "get", "maint", "reopen", "reopen", "reopen"},
+	MaintKinds:  []string{"rotate", "rotate", "drain", "drain", "once", "rewrite"},
+	ValueSizes:  []int{0, 1, 33, 100, 1000, 9000},
+	MaxOps:      70,
+	MaxKeys:     6,
+	ExpiredTail: true,
 }
 
 var plainProfile = plain.Profile{
@@ -31,7 +32,7 @@ var plainProfile = plain.Profile{
 
 func TestCheck(t *testing.T) {
 	s := &pbt.Suite{ID: "C12", Level: "exploration",
-		Rule: "txn: rapid-generated transactional histories with frequent clean Close/Open cycles (1..many per case) and writes, deletes, expiry metadata, flushes, compactions and value-log rewrites in between; after every reopen all keys are read back, a forward scan and an all-versions scan are compared with the MVCC model (every key, every stored version, ExpiresAt), and the oracle's next commit timestamp must exceed every version stored before; plain: the same for a database used through Set/Del. Non-trivial = a reopen with >=2 commits and >=1 flushed SST before it; distinct by case content.",
+		Rule:        "txn: rapid-generated transactional histories with frequent clean Close/Open cycles (1..many per case) and writes, deletes, expiry metadata, flushes, compactions and value-log rewrites in between; after every reopen all keys are read back, a forward scan and an all-versions scan are compared with the MVCC model (every key, every stored version, ExpiresAt), and the oracle's next commit timestamp must exceed every version stored before; plain: the same for a database used through Set/Del. Non-trivial = a reopen with >=2 commits and >=1 flushed SST before it; distinct by case content.",
 		Assumptions: []string{"transactional and plain data are kept in separate databases (the API forbids mixing)"},
 	}
 	pbt.Add(s, &pbt.Spec[txm.Case]{Name: "txn", Gen: func(t *rapid.T) txm.Case { return txm.Gen(t, txProfile) }, Run: txm.Run, Quick: 200, Thorough: 20000, Shards: 16})
